@@ -73,7 +73,7 @@ static struct lstate mk(void) {
     l->num = LN; l->datasum = sum;
     QV_IN(int, depth0);
     QV_ASSUME(depth0 >= 0 && depth0 <= 2);
-    gh_lock_depth = depth0; gh_lock_acquired = 0;
+    gh_lock_depth = depth0; gh_lock_acquired = 0; gh_lock_outer = 0;
     s.l = l; s.max = max; s.depth0 = depth0;
 #ifdef QV_C13
     QV_ASSUME(ts && depth0 == 0);
@@ -103,7 +103,7 @@ static void check(struct lstate *s, const struct model *m) {
     QV_ASSERT(l->max == s->max, "C09: size limit untouched");
 }
 #ifdef QV_C13
-#define LOCK_BALANCED(s) do { C13_SETTLE(); QV_ASSERT(gh_lock_depth == (s).depth0, "C13: the operation ran inside one critical section and released it"); } while (0)
+#define LOCK_BALANCED(s) do { C13_SETTLE(); QV_ASSERT(gh_lock_depth == (s).depth0 && gh_lock_outer <= 1, "C13: all shared accesses of the operation lie in ONE critical section, which is released on return"); gh_lock_outer = 0; } while (0)
 #else
 #define LOCK_BALANCED(s) QV_ASSERT(gh_lock_depth == (s).depth0, "C14: lock depth on return equals depth on entry")
 #endif
